@@ -699,6 +699,10 @@ pub(crate) fn m_wrap_step() {
                 } else {
                     assert!(wb.pre_wrapped == pre_wrapped, "continuation mark changed without a pending word");
                 }
+            } else if ws == WhiteSpace::Normal && !had_word && text.chars().all(char::is_whitespace) && wslen <= 1 && (wslen == 0 || line_len > 0) {
+                // a whitespace run of any composition has the effect of one space (none at the start of a line)
+                assert!(wb.text.len() == lines_before && wb.line.len == line_len && wb.wordlen == 0, "whitespace alone emitted something");
+                assert!(wb.wslen == (line_len != 0) as usize, "whitespace run {:?} leaves {} pending columns on a line of {}", text, wb.wslen, line_len);
             } else if nchars == 1 && !had_word && ws != WhiteSpace::Normal && text == "\t" {
                 let col = line_len + wslen;
                 let nxt = (col / 8 + 1) * 8;
